@@ -44,7 +44,8 @@ DEFAULT = {
     "precond": ["shampoo", {}],
     "groups": None,
     "seed": 0,
-    "grad_kind": "table",  # or "rank1_first"
+    "grad_kind": "table",  # or "rank1_first" / "onehot_first"
+    "gscale": 1.0,  # dyadic scale applied to every gradient
 }
 
 
@@ -72,6 +73,10 @@ def grad_value(pidx, t, shape, seed, kind="table"):
         for v in vecs[1:]:
             g = np.multiply.outer(g, v)
         return g / (2.0 ** (len(shape) - 1))
+    if kind == "onehot_first" and t == 0:
+        g = np.zeros(n)
+        g[(pidx + seed) % n] = TABLE[(pidx + seed) % 8]
+        return g.reshape(shape)
     i = np.arange(n)
     return TABLE[(5 * pidx + 3 * t + 7 * i + ((i + 1) * (t + 2)) // 2 + (i * pidx) // 2 + seed) % 8].reshape(shape)
 
@@ -202,7 +207,7 @@ def set_grads(params, cfg, t, mask):
 
     for i, p in enumerate(params):
         if mask[i]:
-            g = grad_value(i, t, tuple(p.shape), cfg["seed"], cfg.get("grad_kind", "table"))
+            g = grad_value(i, t, tuple(p.shape), cfg["seed"], cfg.get("grad_kind", "table")) * cfg.get("gscale", 1.0)
             p.grad = torch.tensor(g, dtype=p.dtype).reshape(p.shape)
         else:
             p.grad = None
@@ -212,7 +217,7 @@ def ref_grads(cfg, t, mask):
     out = []
     for i, s in enumerate(cfg["shapes"]):
         if mask[i]:
-            g = grad_value(i, t, tuple(s), cfg["seed"], cfg.get("grad_kind", "table"))
+            g = grad_value(i, t, tuple(s), cfg["seed"], cfg.get("grad_kind", "table")) * cfg.get("gscale", 1.0)
             if cfg["pdtype"] == "bf16":
                 import torch
 
